@@ -198,3 +198,154 @@ func verifC10Group(t *testing.T, r *vfh.Rand, out *vfh.Out) {
 		runGroup(t, out, mon, !mon && r.Chance(1, 4), kind, time.Duration(r.Range(1, int64(700*time.Second)))|1)
 	}
 }
+
+// runGroupQ: a transmission fails while another one is in flight (latency lat), so the scheduler
+// stops consuming requests although the task's context is not cancelled yet, and a burst of n
+// solicitations arrives meanwhile. The task must still be torn down once the transmission in
+// flight has completed (F-17: with a bare `ipC <- ip` the listener blocks in its 17th send).
+func runGroupQ(t *testing.T, out *vfh.Out, unicastOnly, sys bool, tf, lat time.Duration, n int) {
+	synctest.Test(t, func(t *testing.T) {
+		st := &vfState{forwarding: true}
+		cfg := vfAdvConfig(200*time.Second, 600*time.Second, unicastOnly, 1800*time.Second)
+		mm := NewMetrics(metricslite.NewMemory(), "v", time.Time{}, st, []config.Interface{cfg})
+		cctx := NewContext(nil, mm, st)
+		watchC := make(chan netstate.Change, 8)
+		var conns []*vfConn
+		var dialAt []time.Duration
+		start := time.Now()
+		d := system.NewDialer("vf0", st, system.Advertise, nil)
+		d.DialFunc = func() (*system.DialContext, error) {
+			c := newVfConn()
+			c.t0 = start
+			conns = append(conns, c)
+			dialAt = append(dialAt, time.Since(start))
+			return &system.DialContext{Conn: c,
+				Interface: &net.Interface{Index: 1, Name: "vf0", HardwareAddr: net.HardwareAddr{2, 0, 0, 0, 0, 1}},
+				IP:        netip.MustParseAddr("fe80::1")}, nil
+		}
+		run := NewAdvertiser(cctx, cfg, d, watchC, func() bool { return false }).Run
+		ctx, cancel := context.WithCancel(context.Background())
+		done := make(chan error, 1)
+		var retAt time.Duration // instant Run returned (read after receiving from done)
+		go func() {
+			err := run(ctx)
+			retAt = time.Since(start)
+			done <- err
+		}()
+		synctest.Wait()
+
+		time.Sleep(tf)
+		c0 := conns[0]
+		hostA, hostB, hostC := vfHosts[1].WithZone("vf0"), vfHosts[2].WithZone("vf0"), vfHosts[4].WithZone("vf0")
+		faultAt := time.Since(start)
+		c0.mu.Lock()
+		c0.latency = func(_ int, dst netip.Addr) time.Duration {
+			if dst.WithZone("") == hostA.WithZone("") {
+				return lat
+			}
+			return 0
+		}
+		c0.writeErr = func(_ int, dst netip.Addr) error {
+			if dst.WithZone("") != hostB.WithZone("") {
+				return nil
+			}
+			if sys {
+				return &os.SyscallError{Syscall: "sendmsg", Err: syscall.ENETDOWN}
+			}
+			return errors.New("scripted write error")
+		}
+		c0.mu.Unlock()
+		rs := func(h netip.Addr) bool {
+			return c0.deliver(vfRead{m: advMessage(advEvent{kind: 0, host: 1}), hop: 255, host: h})
+		}
+		rs(hostA) // answered within 500 ms; its transmission takes lat
+		time.Sleep(600 * time.Millisecond)
+		rs(hostB) // answered within 500 ms; its transmission fails while A's is in flight
+		time.Sleep(550 * time.Millisecond)
+		delivered := 0
+		for j := 0; j < n; j++ {
+			if !rs(hostC) {
+				break
+			}
+			delivered++
+		}
+		synctest.Wait()
+
+		outcome, at := "running", time.Duration(0)
+		deadline := time.After(lat + 5*time.Second)
+	wait:
+		for {
+			select {
+			case err := <-done:
+				at = retAt
+				if err != nil {
+					outcome = "error"
+				} else {
+					outcome = "nil"
+				}
+				break wait
+			case <-deadline:
+				break wait
+			case <-time.After(time.Millisecond):
+				if len(conns) > 1 {
+					outcome, at = "redial", dialAt[1]
+					break wait
+				}
+			}
+		}
+		time.Sleep(time.Second)
+		synctest.Wait()
+		c0.mu.Lock()
+		oldUse := 0
+		for _, rc := range c0.readCalls {
+			if outcome != "running" && rc > at {
+				oldUse++
+			}
+		}
+		for _, w := range c0.writes {
+			if outcome != "running" && w.begin > at {
+				oldUse++
+			}
+		}
+		c0.mu.Unlock()
+		cancel()
+		final := "nil"
+		if outcome == "running" || outcome == "redial" {
+			select {
+			case err := <-done:
+				if err != nil {
+					final = "error"
+				}
+			case <-time.After(10 * time.Minute):
+				final = "hung"
+			}
+		}
+		if os.Getenv("VERIF_DEBUG") != "" {
+			for _, w := range c0.snapshot() {
+				t.Logf("write begin=%v end=%v dst=%v failed=%v", w.begin, w.end, w.dst, w.failed)
+			}
+			t.Logf("hostA=%v hostB=%v outcome=%s", hostA, hostB, outcome)
+		}
+		c := new(vfh.Toks).S("grpq").B(unicastOnly).B(sys).I(int64(tf)).I(int64(lat)).N(n)
+		impl := new(vfh.Toks).S(outcome).I(int64(at - faultAt)).N(oldUse).S(final).N(delivered)
+		out.Line(c.String(), impl.String())
+		out.Flush()
+	})
+}
+
+func verifC10GroupQ(t *testing.T, r *vfh.Rand, out *vfh.Out) {
+	// bursts below, at and above the capacity of the request channel (16); the runs that can
+	// leave goroutines blocked for ever (and so end the test binary) come last
+	for _, n := range []int{0, 1, 15, 16, 17, 18, 40} {
+		for _, sys := range []bool{false, true} {
+			for _, uo := range []bool{false, true} {
+				runGroupQ(t, out, uo, sys, 700*time.Millisecond+1, 2*time.Second, n)
+			}
+		}
+	}
+	k := vfh.N(12, 300)
+	for i := 0; i < k; i++ {
+		runGroupQ(t, out, r.Chance(1, 4), r.Bool(), time.Duration(r.Range(1, int64(30*time.Second)))|1,
+			time.Duration(r.Range(int64(2*time.Second), int64(20*time.Second))), r.Intn(60))
+	}
+}
